@@ -11,6 +11,8 @@ args = sys.argv[1:]
 props = [a for a in args if re.fullmatch(r"C\d\d", a)]
 opt = lambda k, d: args[args.index(k) + 1] if k in args else d
 N, SEED, SLOTS, WORKERS, WALL = int(opt("--n", "20")), int(opt("--seed", "1")), int(opt("--slots", "3")), opt("--workers", "5"), opt("--wall", "60")
+SLOT_BASE = int(opt("--slot-base", "0"))
+RETRY = "--retry-survivors" in args  # evaluate again the mutants recorded as survived / harness-error (after a check was strengthened)
 MUT = "/tmp/mut/mutate"
 env = dict(os.environ, GOFLAGS="-mod=mod", GOPROXY="off", GOSUMDB="off", GOTOOLCHAIN="local")
 TESTED = {"pkg/cafs": "./pkg/cafs/", "pkg/storage/localfs": "./pkg/storage/localfs/", "pkg/fuse": "./pkg/fuse/", "pkg/model": "./pkg/model/",
@@ -62,15 +64,27 @@ for prop in props:
     if os.path.exists(outp):
         for l in open(outp):
             r = json.loads(l)
+            if RETRY and r["status"] in ("survived", "harness-error"):
+                done.discard((r["file"], r["index"]))
+                continue
             done.add((r["file"], r["index"]))
     rnd = random.Random(SEED * 1000003 + int(prop[1:]))
     rnd.shuffle(pts)
     todo = [p for p in pts if (p[0], p[1]) not in done][:N]
+    if RETRY:
+        again = set()
+        for l in open(outp):
+            r = json.loads(l)
+            if r["status"] in ("survived", "harness-error"):
+                again.add((r["file"], r["index"]))
+            else:
+                again.discard((r["file"], r["index"]))
+        todo = [p for p in pts if (p[0], p[1]) in again]
     print("%s: %d mutation points on covered lines of %d files, %d already evaluated, running %d" % (prop, len(pts), len(files), len(done), len(todo)), flush=True)
     lock = threading.Lock()
 
     def slot(si):
-        wt = "/tmp/mut/wt-%d" % si
+        wt = "/tmp/mut/wt-%d" % (si + SLOT_BASE)
         if not os.path.isdir(wt):
             subprocess.run(["git", "-C", "/repo", "worktree", "add", "-q", "--detach", wt, "HEAD"], check=True)
         while True:
